@@ -131,7 +131,7 @@ def record(job):
     cfg, steps = job
     dut, ins, outs = build(cfg)
     log = simulate(dut, ins, outs, iter(steps).__next__ if False else _seq(steps))
-    return {"cfg": cfg, "steps": [to_step(cfg, i, o) for i, o in log]}
+    return {"cfg": cfg, "steps": [to_step(cfg, i, o) for i, o in log], "stim": list(steps)}
 
 
 def _seq(steps):
@@ -343,8 +343,25 @@ def report_failures(run, traces, fails, tag):
         t = fl["t"]
         run.report(f"{tag}:{fl['err']}:{json.dumps(tr['cfg'], sort_keys=True)[:200]}",
                    f"arbiter trace rejected at step {t}, clause {fl['err']}",
-                   {"cfg": tr["cfg"], "failing_step": t, "clause": fl["err"],
-                    "steps": tr["steps"][max(0, t - 4):t]})
+                   {"kind": "arb-trace", "cfg": tr["cfg"], "stim": tr["stim"][:t], "failing_step": t,
+                    "clause": fl["err"], "steps": tr["steps"][max(0, t - 4):t]})
+
+
+def replay(path):
+    with open(path) as f:
+        doc = json.load(f)
+    rp = doc["replay"]
+    if rp.get("kind") != "arb-trace":
+        print(f"replay file {path} carries no stimulus; finding was: {doc.get('what')}")
+        return common.EXIT_MACHINERY
+    tr = record((rp["cfg"], rp["stim"]))
+    fails = tracecheck.validate("WbArbiter_Trace", "Arb", [tr])
+    if fails:
+        print(f"VIOLATION property={doc['property']} replay={path}\n  what: still rejected at step {fails[0]['t']}, "
+              f"clause {fails[0]['err']}")
+        return common.EXIT_VIOLATION
+    print(f"replay of {path}: accepted by the specification on this tree ({len(tr['steps'])} steps)")
+    return common.EXIT_OK
 
 
 def main(prop, tier):
